@@ -438,17 +438,25 @@ example :
   decide +kernel
 
 /-- Non-vacuity of `DirectiveCommodityAt` on the parser's own trees: the quoted declaration
-    (End recorded, lexeme with quotes) and a lower-case symbol (a text token: no End, the lexeme is
-    the bare symbol — the blanks before the comment are not part of the range). -/
+    (End recorded, lexeme with quotes) and a lower-case symbol followed by blanks and a comment
+    (a text token: since fix-trailing-blank-ranges.diff it ends with its value, the End is recorded
+    too and the blanks before the comment are not part of the range); and on a tree without End
+    (what the parser recorded for a text token before that repair: the lexeme is the bare symbol). -/
 example :
     DirectiveCommodityAt qText.toList ⟨"AAPL 2".toUTF8.toList, .left, ⟨⟨1, 11, 10⟩, ⟨1, 19, 18⟩⟩⟩
       "commodity \"AAPL 2\"".toList "commodity ".toList [] "\"AAPL 2\"".toList ∧
     (HL.Pipeline.parseText Classes.go "commodity usd  ; c\n".toUTF8.toList).1.directives =
-      [.commodity ⟨"usd".toUTF8.toList, .left, ⟨⟨1, 11, 10⟩, Pos.zero⟩⟩ [] [] [] ⟨⟨1, 1, 0⟩, ⟨2, 1, 19⟩⟩] ∧
+      [.commodity ⟨"usd".toUTF8.toList, .left, ⟨⟨1, 11, 10⟩, ⟨1, 14, 13⟩⟩⟩ [] [] [] ⟨⟨1, 1, 0⟩, ⟨2, 1, 19⟩⟩] ∧
+    DirectiveCommodityAt "commodity usd  ; c\n".toList ⟨"usd".toUTF8.toList, .left, ⟨⟨1, 11, 10⟩, ⟨1, 14, 13⟩⟩⟩
+      "commodity usd  ; c".toList "commodity ".toList "  ; c".toList "usd".toList ∧
+    HL.Parser.directiveCommodityPinnedTrail ⟨.text, "usd".toUTF8.toList, ⟨1, 11, 10⟩, ⟨1, 16, 15⟩⟩ =
+      ⟨"usd".toUTF8.toList, .left, ⟨⟨1, 11, 10⟩, Pos.zero⟩⟩ ∧
     DirectiveCommodityAt "commodity usd  ; c\n".toList ⟨"usd".toUTF8.toList, .left, ⟨⟨1, 11, 10⟩, Pos.zero⟩⟩
       "commodity usd  ; c".toList "commodity ".toList "  ; c".toList "usd".toList := by
   refine ⟨⟨by decide, by decide, by decide +kernel, by decide +kernel, by decide, ?_⟩, by decide +kernel,
+    ⟨by decide, by decide, by decide +kernel, by decide +kernel, by decide, ?_⟩, by decide +kernel,
     ⟨by decide, by decide, by decide +kernel, by decide +kernel, by decide, ?_⟩⟩
+  · rw [if_pos (by decide)]; exact ⟨by decide, by decide⟩
   · rw [if_pos (by decide)]; exact ⟨by decide, by decide⟩
   · rw [if_neg (by decide)]; decide +kernel
 
